@@ -6,7 +6,7 @@ Driver handlers for property C14.
 * `c14.spec` — the specification evaluated on what the implementation did
 -/
 namespace Pydjinni.Drv.C14
-open Lean Pydjinni.Gen Pydjinni.Sys Pydjinni.Drv.SysJson
+open Lean Pydjinni.GenC Pydjinni.SysC Pydjinni.Drv.SysJson
 
 structure Req where
   run : RunCfg
